@@ -6,6 +6,7 @@ L2 `addRemove_remove` : when everything the walk owes is held, removal does not
                         raise and takes exactly that away;
 `addRemove_rm_nokey`  : with nothing of the handler held, removal leaves the hooks
                         untouched and raises NotifierNotFound (unless it owes nothing).
+(each first for `walk` with any incoming undo log, then for the outermost call)
 -/
 import TraitsVerif.Lemmas.ObsRegister
 namespace TraitsVerif.Model.Obs
@@ -39,49 +40,63 @@ theorem isOk_iff {α} (e : Except Exc α) : isOk e = true ↔ ∃ a, e = .ok a :
 
 /-! ### registration succeeds on a walk that meets no failing `iter_*` -/
 
-theorem addRemoveCs_add_ok (h : Heap) (k : HKey) (ob : Observer) (x : W) (cs : List Graph)
-    (ih : ∀ c ∈ cs, ∀ (extra : Bool) (y : W) (H : Hooks), walkOk h extra c y = true →
-      (addRemove h k false extra c y H).err = none)
-    (H : Hooks) (hw : walkOkCs h ob x cs = true) : (addRemoveCs h k false ob x cs H).err = none := by
-  induction cs generalizing H with
+theorem foldW_ok (f : W → Hooks → List Item → Tr) (ys : List W) (H : Hooks) (log : List Item)
+    (hf : ∀ y ∈ ys, ∀ H' log', (f y H' log').2.2 = none) : (foldW f ys H log).2.2 = none := by
+  induction ys generalizing H log with
+  | nil => rfl
+  | cons y ys ih =>
+    simp only [foldW]
+    rw [hf y (List.mem_cons_self ..) H log]
+    exact ih _ _ (fun y' hy' => hf y' (List.mem_cons_of_mem _ hy'))
+
+theorem walkCs_add_ok (h : Heap) (k : HKey) (ob : Observer) (x : W) (cs : List Graph)
+    (ih : ∀ c ∈ cs, ∀ (extra : Bool) (y : W) (H : Hooks) (log : List Item), walkOk h extra c y = true →
+      (walk h k false extra c y H log).2.2 = none)
+    (H : Hooks) (log : List Item) (hw : walkOkCs h ob x cs = true) : (walkCs h k false ob x cs H log).2.2 = none := by
+  induction cs generalizing H log with
   | nil => rfl
   | cons c cs ihcs =>
     obtain ⟨⟨ys, hys, hall⟩, hrest⟩ := (walkOkCs_cons h ob x c cs).1 hw
-    simp only [addRemoveCs, hys]
-    have := foldRes_ok (addRemove h k false true c) ys H
-      (fun y hy H' => ih c (List.mem_cons_self ..) true y H' (hall y hy))
+    simp only [walkCs, hys]
+    have := foldW_ok (walk h k false true c) ys H log
+      (fun y hy H' log' => ih c (List.mem_cons_self ..) true y H' log' (hall y hy))
     simp only [this]
-    exact ihcs (fun c' hc' => ih c' (List.mem_cons_of_mem _ hc')) _ hrest
+    exact ihcs (fun c' hc' => ih c' (List.mem_cons_of_mem _ hc')) _ _ hrest
 
-theorem addRemove_add_ok (h : Heap) (k : HKey) : ∀ (g : Graph) (extra : Bool) (x : W) (H : Hooks),
-    walkOk h extra g x = true → (addRemove h k false extra g x H).err = none := by
+theorem walk_add_ok (h : Heap) (k : HKey) : ∀ (g : Graph) (extra : Bool) (x : W) (H : Hooks) (log : List Item),
+    walkOk h extra g x = true → (walk h k false extra g x H log).2.2 = none := by
   apply Graph.ind
-  intro ob cs ih extra x H hw
+  intro ob cs ih extra x H log hw
   obtain ⟨hobs, hcs, hex⟩ := (walkOk_node h extra ob cs x).1 hw
   obtain ⟨os, hos⟩ := (isOk_iff _).1 hobs
-  rw [addRemove_add_unfold]
-  obtain ⟨H1, d1, hs1⟩ : ∃ H1 d1, notifStep h k false ob x H [] = (H1, d1, none) := by
+  rw [walk_add_unfold]
+  obtain ⟨H1, d1, hs1⟩ : ∃ H1 d1, notifStep h k false ob x H log = (H1, d1, none) := by
     unfold notifStep
     by_cases hn : ob.notify = true
-    · obtain ⟨H1, ha, _, _⟩ := applyOwn_add (userItems k os) H []
+    · obtain ⟨H1, ha, _, _⟩ := applyOwn_add (userItems k os) H log
       exact ⟨H1, _, by simp [hn, hos]; exact ha⟩
-    · exact ⟨H, [], by simp [hn]⟩
+    · exact ⟨H, log, by simp [hn]⟩
   simp only [hs1]
   obtain ⟨H2, ha2, _, _⟩ := applyOwn_add (maintItems ob cs k os) H1 d1
   have hs2 : maintStep h k false ob cs x H1 d1 = (H2, (maintItems ob cs k os).reverse ++ d1, none) := by
     simp [maintStep, hos]; exact ha2
   simp only [hs2]
-  have h3 := addRemoveCs_add_ok h k ob x cs ih H2 hcs
+  have h3 := walkCs_add_ok h k ob x cs ih H2 ((maintItems ob cs k os).reverse ++ d1) hcs
   simp only [h3]
   cases extra with
-  | false => simp
+  | false => simpa using h3
   | true =>
     obtain ⟨os', hos'⟩ := (isOk_iff _).1 (hex rfl)
     obtain ⟨H4, ha4, _, _⟩ := applyOwn_add (os'.map (fun o => (o, NKey.maint .added (.node ob cs) k)))
-      (addRemoveCs h k false ob x cs H2).H []
-    have : (extraStep h k false (.node ob cs) x (addRemoveCs h k false ob x cs H2).H).err = none := by
-      simp [extraStep, Graph.ob, hos', ha4]
-    simp [this]
+      (walkCs h k false ob x cs H2 ((maintItems ob cs k os).reverse ++ d1)).1
+      (walkCs h k false ob x cs H2 ((maintItems ob cs k os).reverse ++ d1)).2.1
+    simp [extraStepW, Graph.ob, hos', ha4]
+
+theorem addRemove_add_ok (h : Heap) (k : HKey) (g : Graph) (extra : Bool) (x : W) (H : Hooks)
+    (hw : walkOk h extra g x = true) : (addRemove h k false extra g x H).err = none := by
+  unfold addRemove
+  rw [finish_err]
+  exact walk_add_ok h k g extra x H [] hw
 
 /-! ### L2: removal -/
 
@@ -117,41 +132,53 @@ theorem foldRes_rm (f : W → Hooks → Res) (items : W → List Item) (good : W
     rw [List.flatMap_cons, cntItems_append]
     omega
 
-theorem addRemove_rm_unfold (h : Heap) (k : HKey) (extra : Bool) (ob : Observer) (cs : List Graph) (x : W) (H : Hooks) :
-    addRemove h k true extra (.node ob cs) x H =
-      (let r1 := if extra then extraStep h k true (.node ob cs) x H else ⟨H, none⟩
-       match r1.err with
-       | some e => ⟨r1.H, some e⟩
-       | none =>
-         let r2 := addRemoveCs h k true ob x cs r1.H
-         match r2.err with
-         | some e => ⟨r2.H, some e⟩
-         | none =>
-           let s3 := maintStep h k true ob cs x r2.H []
-           match s3.2.2 with
-           | some e => ⟨undo true s3.2.1 s3.1, some e⟩
-           | none =>
-             let s4 := notifStep h k true ob x s3.1 s3.2.1
-             match s4.2.2 with
-             | some e => ⟨undo true s4.2.1 s4.1, some e⟩
-             | none => ⟨s4.1, none⟩) := by
-  rw [addRemove]; rfl
+theorem foldW_rm (f : W → Hooks → List Item → Tr) (items : W → List Item) (good : W → Prop)
+    (hf : ∀ y H log, good y → WF H → (∀ o q, cntItems (items y) o q ≤ cnt H o q) →
+      (f y H log).2.2 = none ∧ (∀ o q, cnt (f y H log).1 o q + cntItems (items y) o q = cnt H o q) ∧ WF (f y H log).1)
+    (ys : List W) (H : Hooks) (log : List Item) (hg : ∀ y ∈ ys, good y) (hw : WF H)
+    (hle : ∀ o q, cntItems (ys.flatMap items) o q ≤ cnt H o q) :
+    (foldW f ys H log).2.2 = none ∧
+      (∀ o q, cnt (foldW f ys H log).1 o q + cntItems (ys.flatMap items) o q = cnt H o q) ∧
+      WF (foldW f ys H log).1 := by
+  induction ys generalizing H log with
+  | nil => exact ⟨rfl, by simp [foldW, cntItems_nil], hw⟩
+  | cons y ys ih =>
+    have hle1 : ∀ o q, cntItems (items y) o q ≤ cnt H o q := by
+      intro o q
+      have := hle o q
+      rw [List.flatMap_cons, cntItems_append] at this
+      omega
+    obtain ⟨he, hc, hw'⟩ := hf y H log (hg y (List.mem_cons_self ..)) hw hle1
+    have hle2 : ∀ o q, cntItems (ys.flatMap items) o q ≤ cnt (f y H log).1 o q := by
+      intro o q
+      have := hle o q
+      rw [List.flatMap_cons, cntItems_append] at this
+      have := hc o q
+      omega
+    obtain ⟨he2, hc2, hw2⟩ := ih _ (f y H log).2.1 (fun y' hy' => hg y' (List.mem_cons_of_mem _ hy')) hw' hle2
+    simp only [foldW, he]
+    refine ⟨he2, ?_, hw2⟩
+    intro o q
+    have := hc2 o q
+    have := hc o q
+    rw [List.flatMap_cons, cntItems_append]
+    omega
 
 def RemoveSpec (h : Heap) (k : HKey) (g : Graph) : Prop :=
-  ∀ (extra : Bool) (x : W) (H : Hooks), WF H → walkOk h extra g x = true →
+  ∀ (extra : Bool) (x : W) (H : Hooks) (log : List Item), WF H → walkOk h extra g x = true →
     (∀ o q, cntItems (hookList h k extra g x) o q ≤ cnt H o q) →
-    (addRemove h k true extra g x H).err = none ∧
-    (∀ o q, cnt (addRemove h k true extra g x H).H o q + cntItems (hookList h k extra g x) o q = cnt H o q) ∧
-    WF (addRemove h k true extra g x H).H
+    (walk h k true extra g x H log).2.2 = none ∧
+    (∀ o q, cnt (walk h k true extra g x H log).1 o q + cntItems (hookList h k extra g x) o q = cnt H o q) ∧
+    WF (walk h k true extra g x H log).1
 
-theorem addRemoveCs_rm (h : Heap) (k : HKey) (ob : Observer) (x : W) (cs : List Graph)
-    (ih : ∀ c ∈ cs, RemoveSpec h k c) (H : Hooks) (hw : WF H) (hok : walkOkCs h ob x cs = true)
+theorem walkCs_rm (h : Heap) (k : HKey) (ob : Observer) (x : W) (cs : List Graph)
+    (ih : ∀ c ∈ cs, RemoveSpec h k c) (H : Hooks) (log : List Item) (hw : WF H) (hok : walkOkCs h ob x cs = true)
     (hle : ∀ o q, cntItems (hookListCs h k ob x cs) o q ≤ cnt H o q) :
-    (addRemoveCs h k true ob x cs H).err = none ∧
-    (∀ o q, cnt (addRemoveCs h k true ob x cs H).H o q + cntItems (hookListCs h k ob x cs) o q = cnt H o q) ∧
-    WF (addRemoveCs h k true ob x cs H).H := by
-  induction cs generalizing H with
-  | nil => exact ⟨rfl, by simp [addRemoveCs, hookListCs, cntItems_nil], hw⟩
+    (walkCs h k true ob x cs H log).2.2 = none ∧
+    (∀ o q, cnt (walkCs h k true ob x cs H log).1 o q + cntItems (hookListCs h k ob x cs) o q = cnt H o q) ∧
+    WF (walkCs h k true ob x cs H log).1 := by
+  induction cs generalizing H log with
+  | nil => exact ⟨rfl, by simp [walkCs, hookListCs, cntItems_nil], hw⟩
   | cons c cs ihcs =>
     obtain ⟨⟨ys, hys, hall⟩, hrest⟩ := (walkOkCs_cons h ob x c cs).1 hok
     have hle' : ∀ o q, cntItems (ys.flatMap (fun y => hookList h k true c y)) o q +
@@ -160,17 +187,18 @@ theorem addRemoveCs_rm (h : Heap) (k : HKey) (ob : Observer) (x : W) (cs : List 
       have := hle o q
       rw [hookListCs_cons, cntItems_append, hys] at this
       simpa [okOr] using this
-    obtain ⟨e1, c1, w1⟩ := foldRes_rm (addRemove h k true true c) (fun y => hookList h k true c y)
+    obtain ⟨e1, c1, w1⟩ := foldW_rm (walk h k true true c) (fun y => hookList h k true c y)
       (fun y => walkOk h true c y = true)
-      (fun y H' hg hw' hl => ih c (List.mem_cons_self ..) true y H' hw' hg hl)
-      ys H hall hw (fun o q => by have := hle' o q; omega)
-    have hle2 : ∀ o q, cntItems (hookListCs h k ob x cs) o q ≤ cnt (foldRes (addRemove h k true true c) ys H).H o q := by
+      (fun y H' log' hg hw' hl => ih c (List.mem_cons_self ..) true y H' log' hw' hg hl)
+      ys H log hall hw (fun o q => by have := hle' o q; omega)
+    have hle2 : ∀ o q, cntItems (hookListCs h k ob x cs) o q ≤ cnt (foldW (walk h k true true c) ys H log).1 o q := by
       intro o q
       have := hle' o q
       have := c1 o q
       omega
-    obtain ⟨e2, c2, w2⟩ := ihcs (fun c' hc' => ih c' (List.mem_cons_of_mem _ hc')) _ w1 hrest hle2
-    simp only [addRemoveCs, hys, e1]
+    obtain ⟨e2, c2, w2⟩ := ihcs (fun c' hc' => ih c' (List.mem_cons_of_mem _ hc')) _
+      (foldW (walk h k true true c) ys H log).2.1 w1 hrest hle2
+    simp only [walkCs, hys, e1]
     refine ⟨e2, ?_, w2⟩
     intro o q
     have := c2 o q
@@ -179,12 +207,11 @@ theorem addRemoveCs_rm (h : Heap) (k : HKey) (ob : Observer) (x : W) (cs : List 
     simp only [okOr]
     omega
 
-theorem addRemove_remove (h : Heap) (k : HKey) : ∀ g : Graph, RemoveSpec h k g := by
+theorem walk_remove (h : Heap) (k : HKey) : ∀ g : Graph, RemoveSpec h k g := by
   apply Graph.ind
-  intro ob cs ih extra x H hw hok hle
+  intro ob cs ih extra x H log hw hok hle
   obtain ⟨hobs, hcs, hex⟩ := (walkOk_node h extra ob cs x).1 hok
   obtain ⟨os, hos⟩ := (isOk_iff _).1 hobs
-  -- the four groups of items
   have hsplit : ∀ o q, cntItems (hookList h k extra (.node ob cs) x) o q =
       cntItems (if ob.notify then userItems k os else []) o q + cntItems (maintItems ob cs k os) o q +
       cntItems (hookListCs h k ob x cs) o q +
@@ -192,13 +219,14 @@ theorem addRemove_remove (h : Heap) (k : HKey) : ∀ g : Graph, RemoveSpec h k g
     intro o q
     rw [hookList_node, ownItems_eq h k ob cs x os hos]
     simp only [cntItems_append]
-  rw [addRemove_rm_unfold]
+  rw [walk_rm_unfold]
   -- step 1: extra graph
-  obtain ⟨H1, hr1, hc1, hw1⟩ : ∃ H1, (if extra then extraStep h k true (.node ob cs) x H else ⟨H, none⟩ : Res) = ⟨H1, none⟩ ∧
+  obtain ⟨H1, l1, hr1, hc1, hw1⟩ : ∃ H1 l1, (if extra then extraStepW h k true (.node ob cs) x H log else (H, log, none) : Tr)
+        = (H1, l1, none) ∧
       (∀ o q, cnt H1 o q + cntItems (if extra then extraItems (.node ob cs) k (okOr [] (extraObservables h ob x)) else []) o q
         = cnt H o q) ∧ WF H1 := by
     cases extra with
-    | false => exact ⟨H, rfl, by simp [cntItems_nil], hw⟩
+    | false => exact ⟨H, log, rfl, by simp [cntItems_nil], hw⟩
     | true =>
       obtain ⟨os', hos'⟩ := (isOk_iff _).1 (hex rfl)
       have hle4 : ∀ o q, cntItems (extraItems (.node ob cs) k os') o q ≤ cnt H o q := by
@@ -207,12 +235,10 @@ theorem addRemove_remove (h : Heap) (k : HKey) : ∀ g : Graph, RemoveSpec h k g
         rw [hsplit, hos'] at this
         simp only [if_true, okOr] at this
         omega
-      obtain ⟨H1, ha, hc, hw'⟩ := applyOwn_rm_ok (extraItems (.node ob cs) k os') H [] hw hle4
-      refine ⟨H1, ?_, ?_, hw'⟩
-      · simp only [if_true, extraStep, Graph.ob, hos']
-        have : applyOwn true (os'.map (fun o => (o, NKey.maint .added (.node ob cs) k))) H [] =
-            (H1, (extraItems (.node ob cs) k os').reverse ++ [], none) := ha
-        simp [this]
+      obtain ⟨H1, ha, hc, hw'⟩ := applyOwn_rm_ok (extraItems (.node ob cs) k os') H log hw hle4
+      refine ⟨H1, (extraItems (.node ob cs) k os').reverse ++ log, ?_, ?_, hw'⟩
+      · simp only [if_true, extraStepW, Graph.ob, hos']
+        exact ha
       · simpa [hos', okOr] using hc
   simp only [hr1]
   -- step 2: children
@@ -222,19 +248,19 @@ theorem addRemove_remove (h : Heap) (k : HKey) : ∀ g : Graph, RemoveSpec h k g
     rw [hsplit] at this
     have := hc1 o q
     omega
-  obtain ⟨e2, c2, w2⟩ := addRemoveCs_rm h k ob x cs ih H1 hw1 hcs hle2
+  obtain ⟨e2, c2, w2⟩ := walkCs_rm h k ob x cs ih H1 l1 hw1 hcs hle2
   simp only [e2]
   -- step 3: maintainers
-  have hle3 : ∀ o q, cntItems (maintItems ob cs k os) o q ≤ cnt (addRemoveCs h k true ob x cs H1).H o q := by
+  have hle3 : ∀ o q, cntItems (maintItems ob cs k os) o q ≤ cnt (walkCs h k true ob x cs H1 l1).1 o q := by
     intro o q
     have := hle o q
     rw [hsplit] at this
     have := hc1 o q
     have := c2 o q
     omega
-  obtain ⟨H3, ha3, c3, w3⟩ := applyOwn_rm_ok (maintItems ob cs k os) _ [] w2 hle3
-  have hs3 : maintStep h k true ob cs x (addRemoveCs h k true ob x cs H1).H [] =
-      (H3, (maintItems ob cs k os).reverse ++ [], none) := by
+  obtain ⟨H3, ha3, c3, w3⟩ := applyOwn_rm_ok (maintItems ob cs k os) _ (walkCs h k true ob x cs H1 l1).2.1 w2 hle3
+  have hs3 : maintStep h k true ob cs x (walkCs h k true ob x cs H1 l1).1 (walkCs h k true ob x cs H1 l1).2.1 =
+      (H3, (maintItems ob cs k os).reverse ++ (walkCs h k true ob x cs H1 l1).2.1, none) := by
     simp only [maintStep, hos]; exact ha3
   simp only [hs3]
   -- step 4: user notifiers
@@ -248,9 +274,10 @@ theorem addRemove_remove (h : Heap) (k : HKey) : ∀ g : Graph, RemoveSpec h k g
       have := c2 o q
       have := c3 o q
       omega
-    obtain ⟨H4, ha4, c4, w4⟩ := applyOwn_rm_ok (userItems k os) H3 ((maintItems ob cs k os).reverse ++ []) w3 hle4
-    have hs4 : notifStep h k true ob x H3 ((maintItems ob cs k os).reverse ++ []) =
-        (H4, (userItems k os).reverse ++ ((maintItems ob cs k os).reverse ++ []), none) := by
+    obtain ⟨H4, ha4, c4, w4⟩ := applyOwn_rm_ok (userItems k os) H3
+      ((maintItems ob cs k os).reverse ++ (walkCs h k true ob x cs H1 l1).2.1) w3 hle4
+    have hs4 : notifStep h k true ob x H3 ((maintItems ob cs k os).reverse ++ (walkCs h k true ob x cs H1 l1).2.1) =
+        (H4, (userItems k os).reverse ++ ((maintItems ob cs k os).reverse ++ (walkCs h k true ob x cs H1 l1).2.1), none) := by
       simp only [notifStep, hn, if_true, hos]; exact ha4
     simp only [hs4]
     refine ⟨trivial, ?_, w4⟩
@@ -262,8 +289,8 @@ theorem addRemove_remove (h : Heap) (k : HKey) : ∀ g : Graph, RemoveSpec h k g
     rw [hsplit]
     simp only [hn, if_true]
     omega
-  · have hs4 : notifStep h k true ob x H3 ((maintItems ob cs k os).reverse ++ []) =
-        (H3, (maintItems ob cs k os).reverse ++ [], none) := by
+  · have hs4 : notifStep h k true ob x H3 ((maintItems ob cs k os).reverse ++ (walkCs h k true ob x cs H1 l1).2.1) =
+        (H3, (maintItems ob cs k os).reverse ++ (walkCs h k true ob x cs H1 l1).2.1, none) := by
       simp [notifStep, hn]
     simp only [hs4]
     refine ⟨trivial, ?_, w3⟩
@@ -274,6 +301,17 @@ theorem addRemove_remove (h : Heap) (k : HKey) : ∀ g : Graph, RemoveSpec h k g
     rw [hsplit]
     simp only [hn, Bool.false_eq_true, if_false, cntItems_nil]
     omega
+
+/-- L2 for an outermost call. -/
+theorem addRemove_remove (h : Heap) (k : HKey) (g : Graph) (extra : Bool) (x : W) (H : Hooks) (hw : WF H)
+    (hok : walkOk h extra g x = true) (hle : ∀ o q, cntItems (hookList h k extra g x) o q ≤ cnt H o q) :
+    (addRemove h k true extra g x H).err = none ∧
+    (∀ o q, cnt (addRemove h k true extra g x H).H o q + cntItems (hookList h k extra g x) o q = cnt H o q) ∧
+    WF (addRemove h k true extra g x H).H := by
+  obtain ⟨e, c, w⟩ := walk_remove h k g extra x H [] hw hok hle
+  unfold addRemove
+  rw [finish_err, finish_ok _ _ e]
+  exact ⟨e, c, w⟩
 
 end TraitsVerif.Model.Obs
 
@@ -300,50 +338,47 @@ theorem applyOwn_rm_none' (its : List Item) (H : Hooks) (done : List Item) (hw :
   rw [applyOwn_rm_none its H done hw h0]
   cases its <;> simp [nnfUnless]
 
-theorem foldRes_unchanged (f : W → Hooks → Res) (items : W → List Item) (H : Hooks) (ys : List W)
-    (hf : ∀ y ∈ ys, (f y H).H = H ∧ (f y H).err = nnfUnless (items y).isEmpty) :
-    (foldRes f ys H).H = H ∧ (foldRes f ys H).err = nnfUnless (ys.flatMap items).isEmpty := by
+theorem foldW_unchanged (f : W → Hooks → List Item → Tr) (items : W → List Item) (H : Hooks) (log : List Item)
+    (ys : List W) (hf : ∀ y ∈ ys, f y H log = (H, log, nnfUnless (items y).isEmpty)) :
+    foldW f ys H log = (H, log, nnfUnless (ys.flatMap items).isEmpty) := by
   induction ys with
-  | nil => exact ⟨rfl, rfl⟩
+  | nil => rfl
   | cons y ys ih =>
-    obtain ⟨h1, h2⟩ := hf y (List.mem_cons_self ..)
-    simp only [foldRes, h2, List.flatMap_cons, isEmpty_append']
+    have h1 := hf y (List.mem_cons_self ..)
+    simp only [foldW, h1, List.flatMap_cons, isEmpty_append']
     cases hb : (items y).isEmpty with
-    | false => simp [nnfUnless, h1]
+    | false => simp [nnfUnless]
     | true =>
-      simp only [nnfUnless, if_true, h1, Bool.true_and]
+      simp only [nnfUnless, if_true, Bool.true_and]
       exact ih (fun y' hy' => hf y' (List.mem_cons_of_mem _ hy'))
 
 def NoKeySpec (h : Heap) (k : HKey) (g : Graph) : Prop :=
-  ∀ (extra : Bool) (x : W) (H : Hooks), WF H → NoKey H k → walkOk h extra g x = true →
-    (addRemove h k true extra g x H).H = H ∧
-    (addRemove h k true extra g x H).err = nnfUnless (hookList h k extra g x).isEmpty
+  ∀ (extra : Bool) (x : W) (H : Hooks) (log : List Item), WF H → NoKey H k → walkOk h extra g x = true →
+    walk h k true extra g x H log = (H, log, nnfUnless (hookList h k extra g x).isEmpty)
 
-theorem addRemoveCs_nokey (h : Heap) (k : HKey) (ob : Observer) (x : W) (cs : List Graph)
-    (ih : ∀ c ∈ cs, NoKeySpec h k c) (H : Hooks) (hw : WF H) (hn : NoKey H k)
+theorem walkCs_nokey (h : Heap) (k : HKey) (ob : Observer) (x : W) (cs : List Graph)
+    (ih : ∀ c ∈ cs, NoKeySpec h k c) (H : Hooks) (log : List Item) (hw : WF H) (hn : NoKey H k)
     (hok : walkOkCs h ob x cs = true) :
-    (addRemoveCs h k true ob x cs H).H = H ∧
-    (addRemoveCs h k true ob x cs H).err = nnfUnless (hookListCs h k ob x cs).isEmpty := by
+    walkCs h k true ob x cs H log = (H, log, nnfUnless (hookListCs h k ob x cs).isEmpty) := by
   induction cs with
-  | nil => exact ⟨rfl, rfl⟩
+  | nil => rfl
   | cons c cs ihcs =>
     obtain ⟨⟨ys, hys, hall⟩, hrest⟩ := (walkOkCs_cons h ob x c cs).1 hok
-    obtain ⟨h1, h2⟩ := foldRes_unchanged (addRemove h k true true c) (fun y => hookList h k true c y) H ys
-      (fun y hy => ih c (List.mem_cons_self ..) true y H hw hn (hall y hy))
-    obtain ⟨g1, g2⟩ := ihcs (fun c' hc' => ih c' (List.mem_cons_of_mem _ hc')) hrest
-    simp only [addRemoveCs, hys, h2, hookListCs_cons, okOr, isEmpty_append']
+    have h1 := foldW_unchanged (walk h k true true c) (fun y => hookList h k true c y) H log ys
+      (fun y hy => ih c (List.mem_cons_self ..) true y H log hw hn (hall y hy))
+    have g1 := ihcs (fun c' hc' => ih c' (List.mem_cons_of_mem _ hc')) hrest
+    simp only [walkCs, hys, h1, hookListCs_cons, okOr, isEmpty_append']
     cases hb : (ys.flatMap (fun y => hookList h k true c y)).isEmpty with
-    | false => simp [nnfUnless, h1]
-    | true => simp only [nnfUnless, if_true, h1, Bool.true_and]; exact ⟨g1, g2⟩
+    | false => simp [nnfUnless]
+    | true => simp only [nnfUnless, if_true, Bool.true_and]; exact g1
 
-theorem addRemove_rm_nokey (h : Heap) (k : HKey) : ∀ g : Graph, NoKeySpec h k g := by
+theorem walk_rm_nokey (h : Heap) (k : HKey) : ∀ g : Graph, NoKeySpec h k g := by
   apply Graph.ind
-  intro ob cs ih extra x H hw hn hok
+  intro ob cs ih extra x H log hw hn hok
   obtain ⟨hobs, hcs, hex⟩ := (walkOk_node h extra ob cs x).1 hok
   obtain ⟨os, hos⟩ := (isOk_iff _).1 hobs
-  rw [addRemove_rm_unfold, hookList_node, ownItems_eq h k ob cs x os hos]
+  rw [walk_rm_unfold, hookList_node, ownItems_eq h k ob cs x os hos]
   simp only [isEmpty_append']
-  -- every item of this walk carries the key `k`
   have hzU : ∀ it ∈ userItems k os, cnt H it.1 it.2 = 0 := by
     intro it hit
     simp only [userItems, List.mem_map] at hit
@@ -354,10 +389,8 @@ theorem addRemove_rm_nokey (h : Heap) (k : HKey) : ∀ g : Graph, NoKeySpec h k 
     simp only [maintItems, List.mem_flatMap, List.mem_map] at hit
     obtain ⟨o, _, c, _, rfl⟩ := hit
     exact hn _ _ rfl
-  -- step 1
-  obtain ⟨hr1, hE⟩ : (if extra then extraStep h k true (.node ob cs) x H else ⟨H, none⟩ : Res) =
-      ⟨H, nnfUnless (if extra then extraItems (.node ob cs) k (okOr [] (extraObservables h ob x)) else []).isEmpty⟩ ∧ True := by
-    refine ⟨?_, trivial⟩
+  have hr1 : (if extra then extraStepW h k true (.node ob cs) x H log else (H, log, none) : Tr) =
+      (H, log, nnfUnless (if extra then extraItems (.node ob cs) k (okOr [] (extraObservables h ob x)) else []).isEmpty) := by
     cases extra with
     | false => simp [nnfUnless]
     | true =>
@@ -367,37 +400,41 @@ theorem addRemove_rm_nokey (h : Heap) (k : HKey) : ∀ g : Graph, NoKeySpec h k 
         simp only [extraItems, List.mem_map] at hit
         obtain ⟨o, _, rfl⟩ := hit
         exact hn _ _ rfl
-      have ha : applyOwn true (os'.map (fun o => (o, NKey.maint .added (.node ob cs) k))) H [] = _ :=
-        applyOwn_rm_none' (extraItems (.node ob cs) k os') H [] hw hzE
-      simp only [if_true, extraStep, Graph.ob, hos', ha, okOr]
-      cases (extraItems (.node ob cs) k os').isEmpty <;> simp [nnfUnless, undo]
+      simp only [if_true, extraStepW, Graph.ob, hos', okOr]
+      exact applyOwn_rm_none' (extraItems (.node ob cs) k os') H log hw hzE
   simp only [hr1]
   cases hbE : (if extra then extraItems (.node ob cs) k (okOr [] (extraObservables h ob x)) else []).isEmpty with
   | false => simp [nnfUnless]
   | true =>
     simp only [nnfUnless, if_true, Bool.and_true]
-    -- step 2
-    obtain ⟨g1, g2⟩ := addRemoveCs_nokey h k ob x cs ih H hw hn hcs
-    simp only [g2, g1]
+    have g1 := walkCs_nokey h k ob x cs ih H log hw hn hcs
+    simp only [g1]
     cases hbC : (hookListCs h k ob x cs).isEmpty with
     | false => simp [nnfUnless]
     | true =>
       simp only [nnfUnless, if_true, Bool.and_true]
-      -- step 3
-      have hs3 : maintStep h k true ob cs x H [] = (H, [], nnfUnless (maintItems ob cs k os).isEmpty) := by
-        simp only [maintStep, hos]; exact applyOwn_rm_none' _ H [] hw hzM
+      have hs3 : maintStep h k true ob cs x H log = (H, log, nnfUnless (maintItems ob cs k os).isEmpty) := by
+        simp only [maintStep, hos]; exact applyOwn_rm_none' _ H log hw hzM
       simp only [hs3]
       cases hbM : (maintItems ob cs k os).isEmpty with
-      | false => cases ob.notify <;> simp [nnfUnless, undo]
+      | false => cases ob.notify <;> simp [nnfUnless]
       | true =>
         simp only [nnfUnless, if_true, Bool.and_true]
-        -- step 4
         by_cases hnf : ob.notify = true
-        · have hs4 : notifStep h k true ob x H [] = (H, [], nnfUnless (userItems k os).isEmpty) := by
-            simp only [notifStep, hnf, if_true, hos]; exact applyOwn_rm_none' _ H [] hw hzU
+        · have hs4 : notifStep h k true ob x H log = (H, log, nnfUnless (userItems k os).isEmpty) := by
+            simp only [notifStep, hnf, if_true, hos]; exact applyOwn_rm_none' _ H log hw hzU
           simp only [hs4, hnf, if_true]
-          cases (userItems k os).isEmpty <;> simp [nnfUnless, undo]
-        · have hs4 : notifStep h k true ob x H [] = (H, [], none) := by simp [notifStep, hnf]
+          cases (userItems k os).isEmpty <;> simp [nnfUnless]
+        · have hs4 : notifStep h k true ob x H log = (H, log, none) := by simp [notifStep, hnf]
           simp [hs4, hnf]
+
+theorem addRemove_rm_nokey (h : Heap) (k : HKey) (g : Graph) (extra : Bool) (x : W) (H : Hooks) (hw : WF H)
+    (hn : NoKey H k) (hok : walkOk h extra g x = true) :
+    (addRemove h k true extra g x H).H = H ∧
+    (addRemove h k true extra g x H).err = nnfUnless (hookList h k extra g x).isEmpty := by
+  unfold addRemove
+  rw [walk_rm_nokey h k g extra x H [] hw hn hok]
+  unfold finish
+  cases (hookList h k extra g x).isEmpty <;> simp [nnfUnless, undo]
 
 end TraitsVerif.Model.Obs
